@@ -21,6 +21,43 @@ def eq_subst(f, p, pairs):
     return p.subst(sub) if sub else p
 
 
+def consumed(res, trace, f):
+    """(number of colours pulled from the stream by the events of a linear trace, result symbol name of
+    the last pull).  Handles Iterator::nth(n) [n+1], single next() [1] and the 16-bit-pointer helper
+    `for _ in 0..n { it.next(); } it.next()` through the trip count of its Range loop."""
+    total = ZERO
+    last = None
+    for it in trace:
+        if isinstance(it, E.LoopMark):
+            l = res.loops.get(it.loop_id)
+            if l is None:
+                return None, None
+            rng = [v for k, v in l["entry_values"].items() if isinstance(v, Agg) and (v.name or "").endswith("Range")]
+            if len(rng) != 1:
+                return None, None
+            start, end = f.simplify(rng[0].fields[0].poly()), f.simplify(rng[0].fields[1].poly())
+            if start != ZERO:
+                return None, None
+            for c in l["cont"]:
+                cls = [TR.classify(e).cls for e in c["trace"] if isinstance(e, E.Ev) and e.kind == "call"]
+                if cls != ["NEXT", "NEXT"]:
+                    return None, None
+            total = total + end
+        elif isinstance(it, E.Ev) and it.kind == "call":
+            s = TR.classify(it)
+            if s.cls == "ITER_NTH":
+                total = total + f.simplify(it.args[1].poly()) + 1
+                last = it.ret.name
+            elif s.cls == "NEXT":
+                # the Range's own next() (loop exit test) is not a pull from the colour stream
+                tgt = it.pointees[0] if it.pointees else None
+                if isinstance(tgt, Agg) and (tgt.name or "").endswith("Range"):
+                    continue
+                total = total + 1
+                last = it.ret.name
+    return total, last
+
+
 def check_takeskip_step(R, F, cfg):
     """the alternating take/skip iterator, one call of next() at a time (transition relation)"""
     cands = [b for b in F.trait_impl_method(TR.ITER, "next") if b["container"]["self_ty"].get("def", "").startswith("mipidsi::graphics::")]
@@ -48,8 +85,7 @@ def check_takeskip_step(R, F, cfg):
             d = ex.expand_sym(d)
         cur = {n: d.fields[i] for i, n in enumerate(fields)}
         evs = [TR.classify(a_["ev"]) for a_ in TR.annotate(o.state.trace, res.loops)]
-        nexts = [s for s in evs if s.cls == "NEXT"]
-        nths = [s for s in evs if s.cls == "ITER_NTH"]
+        pulled, last = consumed(res, o.state.trace, f)
         rem_pos = f.entails_ge0(rem - 1) is not None
         rem_zero = f.entails_ge0(-rem) is not None
         take_pos = f.entails_ge0(take - 1) is not None
@@ -57,20 +93,19 @@ def check_takeskip_step(R, F, cfg):
         new_rem = f.simplify(cur["take_remaining"].poly())
         if rem_pos:
             seen.add("take")
-            ok = len(nexts) == 1 and not nths and new_rem == rem - 1 and isinstance(o.value, SymV) and o.value.name == nexts[0].ev.ret.name
+            ok = pulled == ONE and new_rem == rem - 1 and isinstance(o.value, SymV) and o.value.name == last
             R.ob("C04-takeskip-step", "%s|taking" % tag, ok,
                  "while colours of the current row remain, next() must yield exactly the next colour and decrement the row counter "
                  "(events %s, remaining := %r)" % ([repr(s) for s in evs], new_rem), sample={"state": "take_remaining > 0", "events": [repr(s) for s in evs]})
         elif rem_zero and take_pos:
             seen.add("skip")
-            n_ok = len(nths) == 1 and not nexts and f.simplify(nths[0].ev.args[1].poly()) == skip
-            ok = n_ok and new_rem == take - 1 and isinstance(o.value, SymV) and o.value.name == nths[0].ev.ret.name
+            ok = pulled is not None and pulled == skip + 1 and new_rem == take - 1 and isinstance(o.value, SymV) and o.value.name == last
             R.ob("C04-takeskip-step", "%s|skipping" % tag, ok,
                  "at the end of a row next() must skip exactly `skip` colours, yield the following one and start a row of take-1 more "
                  "(events %s, remaining := %r)" % ([repr(s) for s in evs], new_rem), sample={"state": "row exhausted", "events": [repr(s) for s in evs]})
         elif rem_zero and take_zero:
             seen.add("empty")
-            ok = not nexts and not nths and isinstance(o.value, Agg) and o.value.variant == 0
+            ok = pulled == ZERO and isinstance(o.value, Agg) and o.value.variant == 0
             R.ob("C04-takeskip-step", "%s|empty" % tag, ok, "with take == 0 next() must return None without consuming colours (events %s)" % [repr(s) for s in evs])
         else:
             R.undecided("C04-takeskip", "%s|path" % tag, "path of TakeSkip::next not classified: %s" % [("%r" % p, v) for p, v in f.decisions()])
@@ -128,7 +163,7 @@ def run(R):
                 if src_ok(inner):
                     npaths["unclipped"] += 1
                     same = all(f.entails_ge0(a - b) is not None and f.entails_ge0(b - a) is not None for a, b in ((ix, ax), (iy, ay), (iw, aw), (ih, ah)))
-                    R.ob("C04-unclipped-direct", "%s|unclipped" % otag, same and not nths,
+                    R.ob("C04-unclipped-direct", "%s|unclipped" % otag, same and consumed(res, o.state.trace, f)[0] == ZERO,
                          "the colour stream is used unshifted although the rectangle is clipped (or colours are skipped although it is not)",
                          sample={"path": "unclipped", "events": [repr(s)[:80] for s in evs]})
                     continue
@@ -141,20 +176,18 @@ def run(R):
                 tsf = {n: ts.fields[i] for i, n in enumerate(names)}
                 want0 = (iy - ay) * aw + (ix - ax)
                 want = eq_subst(f, want0, ((iy, ay), (ix, ax)))
-                if nths:
-                    n = f.simplify(nths[0].ev.args[1].poly())
-                    consumed = n + 1
-                    onsrc = isinstance(nths[0].ev.pointees[0], Agg) or True
-                else:
-                    consumed = ZERO
-                eq = consumed == want
-                if not eq and consumed == ZERO:
+                consumed_, _last = consumed(res, o.state.trace, f)
+                if consumed_ is None:
+                    R.undecided("C04", "%s|skip-shape" % otag, "the colours consumed before the burst could not be counted")
+                    continue
+                eq = consumed_ == want
+                if not eq and consumed_ == ZERO:
                     # the guard `skip > 0` was false: skip <= 0 from the path facts, and skip >= 0 because both
                     # factors (iy-ay), (ix-ax) are entailed non-negative and aw is unsigned: skip = 0 = consumed
                     eq = f.entails_ge0(-want) is not None and f.entails_ge0(iy - ay) is not None and f.entails_ge0(ix - ax) is not None
-                R.ob("C04-initial-skip", "%s|clipped|%r" % (otag, want), len(nths) <= 1 and eq,
-                     "before the first drawn colour %r colours are consumed; the points above and left of the visible part number %r" % (consumed, want),
-                     sample={"path": "clipped", "consumed_before_first": repr(consumed), "oracle": repr(want0)})
+                R.ob("C04-initial-skip", "%s|clipped|%r" % (otag, want), eq,
+                     "before the first drawn colour %r colours are consumed; the points above and left of the visible part number %r" % (consumed_, want),
+                     sample={"path": "clipped", "consumed_before_first": repr(consumed_), "oracle": repr(want0)})
                 R.ob("C04-per-row", "%s|clipped|take-skip|%r" % (otag, want),
                      src_ok(tsf["iter"]) and f.simplify(tsf["take"].poly()) == iw and f.simplify(tsf["take_remaining"].poly()) == iw
                      and f.simplify(tsf["skip"].poly()) == aw - iw,
